@@ -88,6 +88,7 @@ fn main() {
         "C10" => props::c10::run_check(&ctx),
         "C17" => props::c17::run_check(&ctx),
         "C19" => props::c19::run_check(&ctx),
+        "C11" => props::c11::run_check(&ctx),
         "C12" => props::c12::run(&ctx),
         "C13" => props::c13::run(&ctx),
         "C14" => props::c14::run_check(&ctx),
